@@ -56,6 +56,12 @@ def gen(rng, n, twin=None):
         elif m == 5:      # CID rotation timer (PushNewCid)
             d["CID_LIFETIME_MS"] = rng.choice([50, 200, 1000])
             d["CLOSE_AT"] = rng.choice([300000, 1500000])
+            if rng.chance(1, 2):
+                # close() exactly when the rotation timer fired (between NeedIdentifiers and its answer)
+                d["CLOSE_ON_TIMER"] = 8
+                d["CLOSE_ON_TIMER_N"] = rng.range(1, 3)
+                d["CLOSER"] = rng.choice([0, 1, 2])
+                d["CLOSE_AT"] = 3_000_000
             if d.get("CID_LEN") == 0:
                 d["CID_LEN"] = 8
         elif m == 6:      # many connections
